@@ -51,8 +51,45 @@ def _dynamic_writes(ctx, f):
                     t = ('unk',)
                 if t != PJS:
                     out.append((g, n))
+            # a method chosen by name at run time and called: getattr(container, <non-constant>)(...) can be the very
+            # append / remove whose absence is being claimed
+            if isinstance(n, ast.Call) and isinstance(n.func, ast.Call) and isinstance(n.func.func, ast.Name) \
+                    and n.func.func.id == 'getattr' and len(n.func.args) >= 2 \
+                    and not isinstance(n.func.args[1], ast.Constant):
+                out.append((g, n))
     cache[f.qname] = out
     return out
+
+
+def _only_called_as_value(ctx, f) -> bool:
+    """f is never called by name (`f(..)`, `x.f(..)`) anywhere in the package but is mentioned as a value (a table of
+    steps, an argument): whoever calls it - and what runs before and after it - is not visible to a pairing rule."""
+    import ast
+    cache = ctx.__dict__.setdefault('_valonly', {})
+    if f.qname in cache:
+        return cache[f.qname]
+    name = f.name
+    calls = refs = 0
+    for m in ctx.prog.modules.values():
+        if m.generated:
+            continue
+        callfuncs = set()
+        for n in ast.walk(m.tree):
+            if isinstance(n, ast.Call):
+                callfuncs.add(id(n.func))
+        for n in ast.walk(m.tree):
+            if isinstance(n, ast.Name) and n.id == name and isinstance(n.ctx, ast.Load):
+                if id(n) in callfuncs:
+                    calls += 1
+                else:
+                    refs += 1
+            elif isinstance(n, ast.Attribute) and n.attr == name and isinstance(n.ctx, ast.Load):
+                if id(n) in callfuncs:
+                    calls += 1
+                else:
+                    refs += 1
+    cache[f.qname] = (calls == 0 and refs > 0 and name.startswith('_') and not name.startswith('__'))
+    return cache[f.qname]
 
 
 def _opacity_downgrade(ctx, rn, insts):
@@ -64,13 +101,18 @@ def _opacity_downgrade(ctx, rn, insts):
         top = i.func
         if not ctx.prog.has_func(top):
             continue
+        if _only_called_as_value(ctx, ctx.prog.func(top)):
+            i.verdict = 'unproven'
+            i.msg = (f"[not decided: {top} is never called by name, only handed around as a value (a table of steps, a "
+                     f"callback): what runs before and after it is not visible here] " + i.msg)
+            continue
         dw = _dynamic_writes(ctx, ctx.prog.func(top))
         if dw:
             g, n = dw[0]
             i.verdict = 'unproven'
-            i.msg = (f"[not decided: {g.short}:{n.lineno} writes attributes under a name computed at run time "
-                     f"(setattr with a non-constant name), reachable from {top}; an absent update cannot be "
-                     f"established from the source] " + i.msg)
+            i.msg = (f"[not decided: {g.short}:{n.lineno} writes attributes / calls a method under a name computed at "
+                     f"run time (setattr / getattr with a non-constant name), reachable from {top}; an absent update "
+                     f"cannot be established from the source] " + i.msg)
 
 
 def verdicts(pid: str, repo: str):
@@ -121,6 +163,15 @@ def check(pid: str, tier: str, replay: str = None, repo: str = None, quiet=False
             names = {g.short for g in reach.values()}
             if any(i.rule == rn and i.func in names for rs in results.values() for i in rs):
                 continue
+        if rn in ABSENCE_RULES and ctx.prog.has_func(fn) and _dynamic_writes(ctx, ctx.prog.func(fn)):
+            # the function is there but acts through names computed at run time: nothing to anchor on, nothing decided
+            g, n = _dynamic_writes(ctx, ctx.prog.func(fn))[0]
+            mine.append(Inst(rn, fn, 'anchor: expected rule instances', 'unproven',
+                             msg=(f'{fn} (or a function it reaches, {g.short}:{n.lineno}) updates state through '
+                                  f'setattr / getattr with a name computed at run time: the rule finds no construct '
+                                  f'to decide'), file=ctx.prog.func(fn).module.relpath,
+                             line=ctx.prog.func(fn).node.lineno, props=(pid,)))
+            continue
         missing.append(f'{rn}@{fn}')
     if missing:
         print(f'ANALYSIS-INCOMPLETE: property={pid} expected rule instances vanished: '
